@@ -400,7 +400,9 @@ theorem http_cycle (c : Codec V) (hc : c.Sound) (v v2 : V) (r r' : Req) (w : Res
 
 /-! ### Non-vacuity -/
 
-example : dump toy [1, 2] AUTO = .ok [74, 7, 1, 2] ∧ load toy [74, 7, 1, 2] = (JSON, .ok [1, 2]) := by decide
+example : dump toy [1, 2] AUTO = .ok (pack8 defaultSerializationFormat ++ [7, 1, 2]) ∧
+    load toy (pack8 defaultSerializationFormat ++ [7, 1, 2]) = (defaultSerializationFormat, .ok [1, 2]) ∧
+    load toy [74, 7, 1, 2] = (JSON, .ok [1, 2]) := by decide
 example : dumpAndCompress toy [1, 2] CBOR AUTO = .ok [90, 31, 139, 67, 7, 1, 2] ∧
     load toy [90, 31, 139, 67, 7, 1, 2] = (CBOR, .ok [1, 2]) := by decide
 example : dump toy [] RAW = .ok [1] ∧ load toy [1] = (RAW, .error .israw) := by decide
@@ -410,8 +412,10 @@ example : load toy [74] = (0, .error .eof) ∧ load toy [] = (0, .error .small) 
 
 example : formatFromAccept (str "application/json;q=0.9, image/webp") = JSON ∧
     formatFromAccept (str "image/webp, application/cbor") = CBOR ∧ formatFromAccept (str " * , yaml ") = YAML := by decide
-example : formatFromAccept (str "text/xml, text/other") = AUTO ∧ formatFromAccept (str "xml,*") = JSON ∧
-    formatFromAccept (str "text/*") = JSON ∧ formatFromAccept [] = JSON := by decide
+example : formatFromAccept (str "text/xml, text/other") = AUTO ∧
+    formatFromAccept (str "xml,*") = defaultSerializationFormat ∧
+    formatFromAccept (str "text/*") = defaultSerializationFormat ∧
+    formatFromAccept [] = defaultSerializationFormat := by decide
 /-- whitespace before `;` is not accepted (pinned by the package's own test) -/
 example : formatFromAccept (str "yaml ;charset") = AUTO := by decide
 /-- Unicode: KELVIN SIGN lower-cases to `k`; NO-BREAK SPACE and IDEOGRAPHIC SPACE are trimmed -/
